@@ -78,6 +78,10 @@ def emit (w : World τ) (a : ActId) (tag : String) (args : List Int) : World τ 
   { w with trace := { time := w.time, turn := w.turn, act := a, label := (w.acts.getD a default).label,
                       tag := tag, args := args } :: w.trace }
 
+/-- trace event under an explicit label (usim.py: processes and callbacks are not activities of the program) -/
+def emitAs (w : World τ) (a : ActId) (label : Int) (tag : String) (args : List Int) : World τ :=
+  { w with trace := { time := w.time, turn := w.turn, act := a, label := label, tag := tag, args := args } :: w.trace }
+
 /-- scope-level trace events are suppressed for library-internal scopes -/
 def emitScope (w : World τ) (a : ActId) (s : ScopeId) (tag : String) (args : List Int) : World τ :=
   if (w.scope s).silent then w else w.emit a tag args
